@@ -19,6 +19,7 @@ RZero == <<BZero, BOne>>
 ROne  == <<BOne, BOne>>
 RFromInt(n) == <<BFromInt(n), BOne>>
 RFrac(n, d) == RMk(BFromInt(n), BFromInt(d))       \* small TLC integers, d # 0
+RQ(n, d) == RFrac(n, d)
 RFromBig(b) == <<b, BOne>>
 
 RNeg(r) == <<BNeg(r[1]), r[2]>>
